@@ -2,6 +2,12 @@
    interpreter's \w, \d, isdigit, isdecimal; Generated/PyFmtInfo.v: _info and SSIZE_MAX of /repo).
    These are the entry points that are extracted and compared with the implementation. *)
 From Coq Require Import List NArith ZArith.
-From I18n Require Import Lib.Outcome Lib.Ranges Generated.Ucd Generated.PyFmtInfo Model.FmtPerlBrace.
+From I18n Require Import Lib.Outcome Lib.Ranges Generated.Ucd Generated.PyFmtInfo Model.FmtPerlBrace Model.FmtPython.
 
 Definition perl_parse_ucd (s : list N) := perl_parse_steps re_w re_d s.
+
+Definition gen_info : pyinfo := {|
+  i_flags := gen_py_flags; i_lengths := gen_py_lengths; i_oct := gen_py_oct_cvt; i_hex := gen_py_hex_cvt;
+  i_int := gen_py_int_cvt; i_float := gen_py_float_cvt; i_other := gen_py_other_cvt; i_all := gen_py_all_cvt;
+  i_ssize_max := gen_py_ssize_max |}.
+Definition fmtpy_parse_gen (s : list N) := fmtpy_parse gen_info s.
